@@ -293,3 +293,101 @@ func (e *Engine) declare() {
 		fmt.Printf("%s\t%s:%d\t(%s)\t%s\n", n, c.File, c.Line, strings.Join(ps, ", "), strings.Join(locals, ";"))
 	}
 }
+
+// specFieldNames: every field name selected anywhere in the specifications. A
+// write to a field that no contract, pure function, channel invariant or axiom
+// mentions cannot influence any obligation, so it is not subject to frame checks.
+func (e *Engine) specFieldNames() map[string]bool {
+	if e.specFields != nil {
+		return e.specFields
+	}
+	out := map[string]bool{}
+	var walk func(x Expr)
+	walk = func(x Expr) {
+		switch v := x.(type) {
+		case *ESel:
+			out[v.Name] = true
+			walk(v.X)
+		case *EBin:
+			walk(v.L)
+			walk(v.R)
+		case *EUn:
+			walk(v.X)
+		case *ECall:
+			for _, a := range v.Args {
+				walk(a)
+			}
+		case *EIndex:
+			walk(v.X)
+			walk(v.I)
+		case *ESlice:
+			walk(v.X)
+			walk(v.Lo)
+			walk(v.Hi)
+		case *EQuant:
+			walk(v.Body)
+		case *ECond:
+			walk(v.C)
+			walk(v.A)
+			walk(v.B)
+		}
+	}
+	doContract := func(c *Contract) {
+		for _, cl := range c.Requires {
+			walk(cl.E)
+		}
+		for _, cl := range c.Ensures {
+			walk(cl.E)
+		}
+		for _, m := range c.Modifies {
+			walk(m)
+		}
+		for _, l := range c.Lets {
+			walk(l.E)
+		}
+		for _, l := range c.Ghosts {
+			walk(l.E)
+		}
+		for _, g := range c.GhostVars {
+			walk(g.Init)
+		}
+		for _, ls := range c.Loops {
+			for _, cl := range ls.Invariants {
+				walk(cl.E)
+			}
+			if ls.Decreases != nil {
+				walk(ls.Decreases.E)
+			}
+			for _, cl := range ls.Steps {
+				walk(cl.E)
+			}
+		}
+		for _, a := range c.Ats {
+			walk(a.C.E)
+			walk(a.SetLHS)
+		}
+	}
+	for _, c := range e.spec.Contracts {
+		doContract(c)
+	}
+	for _, c := range e.spec.Externs {
+		doContract(c)
+	}
+	for _, c := range e.spec.Callbacks {
+		doContract(c)
+	}
+	for _, p := range e.spec.Pures {
+		walk(p.Body)
+	}
+	for _, p := range e.spec.ChanInvs {
+		walk(p.Body)
+	}
+	for _, a := range e.spec.Axioms {
+		walk(a.E)
+	}
+	for _, od := range e.spec.Owners {
+		walk(od.WriteWhen)
+	}
+	e.specFields = out
+	return out
+}
